@@ -37,6 +37,11 @@ def run(tier, runner):
     r_node.findings = [f for f in r_node.findings if 'FlatSet' in f.key]
     r_stable, r_inv = sets.sort_rules(progs)
     r_search = sets.search(progs)
+    r_nm = sets.node_move(progs)
+    r_nm.findings = [f for f in r_nm.findings if 'FlatSet' in f.key]
+    r_ci = sets.cmp_init(progs)
+    r_ci.findings = [f for f in r_ci.findings if 'FlatSet' in f.key]
+    r_ci.require(5, 'FlatSet constructors taking a comparator or a set, and swap')
     r_mo = sets.merge_order(progs)
     r_mo.findings = [f for f in r_mo.findings if 'FlatSet' in f.key]
     r_mo.require(2, 'merge cursors')
@@ -50,11 +55,11 @@ def run(tier, runner):
     r_inv.require(4, 'bulk writers')
     r_search.require(10, 'lookup members')
     return {
-        'results': [r_cmp, r_inv, r_stable, r_node, r_search, r_mo] + r_w,
-        'explanation': 'C03 as stated (same elements / results as std::set over histories) is not decided.  Decided structural clauses: CMP-OBJ - every '
+        'results': [r_cmp, r_ci, r_inv, r_stable, r_node, r_nm, r_search, r_mo] + r_w,
+        'explanation': 'C03 as stated (same elements / results as std::set over histories) is not decided.  Decided structural clauses: CMP-INIT - a comparator (or set) given to a constructor is the one stored, swap exchanges comparator and elements together; CMP-OBJ - every '
                        'ordering or equivalence decision uses the stored comparator object (no default-constructed temporary); SORT-INV - every bulk '
                        'writer fed with caller data re-establishes sorted+unique (stable sort, merge when appending, duplicate removal) before returning; '
-                       'STABLE - the first inserted of equivalent elements survives; NODE - insert(node) empties the node only if the insertion happened; '
+                       'STABLE - the first inserted of equivalent elements survives; NODE / NODE-MOVE - insert(node) empties the node only if the insertion happened, and its value is moved from only where the insertion happens (never into a temporary built before the lookup); '
                        'CONST-VIEW - no API hands out mutable access to the sorted storage; SEARCH - every lookup is one binary search relying on the '
                        'invariant; SIG - result types as std::set; MERGE-ORDER - both merge overloads traverse the source from its beginning forwards (first equivalent element wins).',
         'assumptions': ['the correctness of the two merge loops and of the insert_hint decision tree is value-dependent and not decided (C12)',
